@@ -7,6 +7,7 @@ mod c02;
 mod c02x;
 mod c03;
 mod c04;
+mod c05;
 mod c06;
 mod c07;
 mod c08;
@@ -76,6 +77,7 @@ fn main() {
         "C02" => run::<c02::C02>(&args),
         "C03" => run::<c03::C03>(&args),
         "C04" => run::<c04::C04>(&args),
+        "C05" => run::<c05::C05>(&args),
         "C06" => run::<c06::C06>(&args),
         "C07" => run::<c07::C07>(&args),
         "C08" => run::<c08::C08>(&args),
